@@ -188,11 +188,12 @@ func parsePermanodeContinueToken(v string) (t time.Time, br blob.Ref, ok bool) {
 	if col < 0 {
 		return
 	}
-	nano, err := strconv.ParseUint(v[:col], 10, 64)
+	// Signed: times before 1970 have a negative UnixNano.
+	nano, err := strconv.ParseInt(v[:col], 10, 64)
 	if err != nil {
 		return
 	}
-	t = time.Unix(0, int64(nano))
+	t = time.Unix(0, nano)
 	br, ok = blob.Parse(v[col+1:])
 	return
 }
